@@ -386,7 +386,10 @@ impl Tracker {
                         self.send_alias_max = ap.prop_u16(pid::TOPIC_ALIAS_MAXIMUM).unwrap_or(0);
                         self.mps_send = ap.prop_u32(pid::MAXIMUM_PACKET_SIZE);
                     }
-                    AP::Connack { code, sp, .. } if self.status == St::Connecting && self.as_client => {
+                    // a delivered CONNACK completes the handshake of a connection acting as client; the library also accepts one
+                    // while it is Disconnected (e.g. the peer's CONNACK crossing the library's own error DISCONNECT before the
+                    // application closed the transport), and the views follow it because the packet was delivered
+                    AP::Connack { code, sp, .. } if self.status != St::Connected && self.as_client => {
                         if *code == 0 {
                             self.status = St::Connected;
                             self.ever_connected = true;
